@@ -127,6 +127,24 @@ pub(crate) fn run(
     false
 }
 
+/// For a worker that cannot return normally (OS threads of the code under test wait for each
+/// other): writes `report` as the result of this worker and ends the process. Only in a worker.
+pub(crate) fn write_result_and_exit(report: &Report) -> ! {
+    match (child_item(), std::env::var("VERIF_SHARD_OUT")) {
+        (Some(_), Ok(out)) => {
+            std::fs::write(out, serde_json::to_string(&report.to_shard_json()).unwrap()).expect("write shard result");
+            std::process::exit(0)
+        }
+        _ => {
+            for v in &report.violations {
+                eprintln!("{}: {}", v.signature, v.detail);
+            }
+            eprintln!("not in a worker process: cannot continue after a hang (run the check sharded)");
+            std::process::exit(2)
+        }
+    }
+}
+
 /// Workers that died without a result; a check decides whether that is a verdict (C10: a
 /// process abort caused by a message) or a machinery failure.
 pub(crate) static DEAD: Mutex<Vec<(usize, String)>> = Mutex::new(Vec::new());
